@@ -17,7 +17,10 @@ type SrcModel struct {
 	FoldMask int       `json:"foldMask"`
 	BD       []DepAST  `json:"bd"` // Build-Depends, Build-Depends-Arch, Build-Depends-Indep (len 3)
 	Styles   [3]string `json:"styles"`
-	Version  string    `json:"version,omitempty"` // "" = 1.0-1
+	// ArchField: the source's own Architecture field ("" = "any all"); which build-dependency
+	// fields count does not depend on it
+	ArchField string `json:"archField,omitempty"`
+	Version   string `json:"version,omitempty"` // "" = 1.0-1
 }
 
 func (s SrcModel) version() string {
@@ -37,6 +40,9 @@ var bdFields = []string{"Build-Depends", "Build-Depends-Arch", "Build-Depends-In
 
 func renderDepStyled(name string, ast DepAST, style string) string {
 	switch style {
+	case "foldedany":
+		// folded wherever blanks are allowed - inside [arch lists] and <profile groups> too
+		return name + ": " + strings.TrimRight(renderDep(ast, fixedSchemes["S7-nl-indent"]), "\n") + "\n"
 	case "folded":
 		return name + ": " + renderDep(ast, fixedSchemes["S3-folded"]) + "\n"
 	case "wrapsort":
@@ -72,7 +78,11 @@ func renderSrcDsc(s SrcModel) string {
 	b.scalar("Format", "3.0 (quilt)")
 	b.scalar("Source", s.Name)
 	b.commaList("Binary", s.Bins, s.FoldMask)
-	b.scalar("Architecture", "any all")
+	if s.ArchField != "" {
+		b.scalar("Architecture", s.ArchField)
+	} else {
+		b.scalar("Architecture", "any all")
+	}
 	b.scalar("Version", s.version())
 	b.scalar("Maintainer", "A B <a@b.c>")
 	text := b.sb.String()
@@ -116,8 +126,9 @@ func genOrderCase(t *rapid.T) OrderCase {
 			s.Bins = append(s.Bins, fmt.Sprintf("%sx%d-%s", rapid.SampledFrom([]string{"lib", "python3-", "", "lib"}).Draw(t, "bp"), i, rapid.SampledFrom([]string{"dev", "doc", "bin", "data", "tools", "1", "dbg"}).Draw(t, "bs")+itoa(j)))
 		}
 		s.FoldMask = genFoldMask(t, "fold")
+		s.ArchField = rapid.SampledFrom([]string{"", "", "any", "all", "amd64", "linux-any", "any all", "amd64 i386", "all amd64"}).Draw(t, "archField")
 		for k := range s.Styles {
-			s.Styles[k] = rapid.SampledFrom([]string{"single", "single", "folded", "wrapsort"}).Draw(t, "style")
+			s.Styles[k] = rapid.SampledFrom([]string{"single", "single", "folded", "wrapsort", "foldedany"}).Draw(t, "style")
 		}
 		c.Sources = append(c.Sources, s)
 	}
@@ -332,7 +343,7 @@ func hasCycle(n int, edges [][2]int) (cycle bool, onlySelf bool) {
 
 var specC19 = Register(&Spec[OrderCase]{
 	Prop: "C19", Name: "order",
-	Rule: "random build-dependency graphs over 1..12 sources (named src<i>, or composed of short syllables so that names are prefixes/suffixes/concatenations of each other) with 1..4 binaries each - uniquely named, except that in 1/5 of the cases one binary is also listed by a second source and in 1/6 two of the sources carry the same Source name (two versions side by side, with the same or different binaries); edges 'v build-depends on binary b of u' chosen acyclic (forward edges over a hidden order), with a planted cycle of length 2..4 (1/4 of cases) or a self-dependency; each edge goes to Build-Depends, -Arch or -Indep, one in five with a multiarch qualifier (:native, :any, :amd64 ...), one in four with a version clause (any of the five operators; versions below, at and above the ones the given sources carry), one in four with one or two build-profile groups (<!nocheck>, <stage1>, <!stage1 !cross> ...), as a plain relation or inside alternatives/arch lists so that the in-graph binary is, or deliberately is not, the first alternative admitted for the build architecture, with substvars and out-of-graph packages mixed in (in one case of ten a few hundred of them on one line of 5 to 12 KiB in front of the relations that matter); 3/4 of edges go through a binary that is NOT the first of its source; every source is rendered as real .dsc text (Binary 'a, b, c' single-line or folded; dependency fields single-line, folded or wrap-and-sort), parsed with control.ParseDsc - or, in half of the cases, decoded one after the other into ONE DSC variable whose value is copied into the list each time - and handed over in a generated permutation. Oracle: model edge set E (C06 selection oracle; a build-dependency on a binary orders the source after EVERY source that builds it); E acyclic => no error, result is a permutation of the input and pos(u) < pos(v) for every edge; a cycle through >= 2 sources => error; only self-dependencies => either; three runs agree. Non-trivial: >= 1 edge through a non-first binary or decided by an alternative; distinct by case.",
+	Rule: "random build-dependency graphs over 1..12 sources (named src<i>, or composed of short syllables so that names are prefixes/suffixes/concatenations of each other) with 1..4 binaries each - uniquely named, except that in 1/5 of the cases one binary is also listed by a second source and in 1/6 two of the sources carry the same Source name (two versions side by side, with the same or different binaries); edges 'v build-depends on binary b of u' chosen acyclic (forward edges over a hidden order), with a planted cycle of length 2..4 (1/4 of cases) or a self-dependency; each edge goes to Build-Depends, -Arch or -Indep, one in five with a multiarch qualifier (:native, :any, :amd64 ...), one in four with a version clause (any of the five operators; versions below, at and above the ones the given sources carry), one in four with one or two build-profile groups (<!nocheck>, <stage1>, <!stage1 !cross> ...), as a plain relation or inside alternatives/arch lists so that the in-graph binary is, or deliberately is not, the first alternative admitted for the build architecture, with substvars and out-of-graph packages mixed in (in one case of ten a few hundred of them on one line of 5 to 12 KiB in front of the relations that matter); 3/4 of edges go through a binary that is NOT the first of its source; every source is rendered as real .dsc text (Binary 'a, b, c' single-line or folded; Architecture any / all / any all / amd64 ...; dependency fields single-line, folded after the commas, folded at every gap - inside arch lists and profile groups too - or wrap-and-sort), parsed with control.ParseDsc - or, in half of the cases, decoded one after the other into ONE DSC variable whose value is copied into the list each time - and handed over in a generated permutation. Oracle: model edge set E (C06 selection oracle; a build-dependency on a binary orders the source after EVERY source that builds it); E acyclic => no error, result is a permutation of the input and pos(u) < pos(v) for every edge; a cycle through >= 2 sources => error; only self-dependencies => either; three runs agree. Non-trivial: >= 1 edge through a non-first binary or decided by an alternative; distinct by case.",
 	Check: func(c OrderCase, r *Recorder) error {
 		n := len(c.Sources)
 		cm, _ := archModel(c.Arch)
